@@ -120,6 +120,18 @@ Print Assumptions C20_unwritable_cache_is_silent.
 
 (* non-vacuity: concrete strings and a concrete history exercise the premises *)
 Definition s (x : string) : list ascii := list_ascii_of_string x.
+(* the clock is finer than the cache file (whole seconds): a time written rounded up is never earlier than the moment it
+   records, so "72 h since the stored time" implies 72 h of real time; written truncated - as the code did - it does not
+   (witness: notices at 1700000000.9 s and 1700259200.1 s) *)
+Theorem C20_times_stored_rounded_up_keep_the_window_in_real_time : forall t1 t2 w,
+  t2 - stored_up t1 >= w -> t2 - t1 >= w.
+Proof. exact stored_up_spacing. Qed.
+Print Assumptions C20_times_stored_rounded_up_keep_the_window_in_real_time.
+
+Theorem C20_times_stored_truncated_refuted : exists t1 t2 w, t2 - stored_down t1 >= w /\ ~ (t2 - t1 >= w).
+Proof. exact stored_down_refuted. Qed.
+Print Assumptions C20_times_stored_truncated_refuted.
+
 Example ex_install : update_action (s "v1.2.3") (s "1.10.0") = Install. Proof. reflexivity. Qed.
 Example ex_prompt : update_action (s "1.9.9-rc1") (s "v2.0.0") = PromptMajor. Proof. reflexivity. Qed.
 Example ex_latest : update_action (s "1.2.3") (s "v1.2.3") = AlreadyLatest. Proof. reflexivity. Qed.
